@@ -725,7 +725,38 @@ func wsMasked(w *world, k int) {
 			for j, b := range m {
 				fr = append(fr, b^mk[j%4])
 			}
-			if !writeAll(fr) {
+			// one frame in three is written in two pieces 5 ms apart, so that it reaches the server
+			// in separate TCP segments: cut 1-3 bytes before its end, inside / right behind its
+			// header, or anywhere
+			cut := 0
+			if len(fr) > 1 && r.Chance(1, 3) {
+				switch r.Intn(3) {
+				case 0:
+					c := 1 + r.Intn(3)
+					if c > len(fr)-1 {
+						c = len(fr) - 1
+					}
+					cut = len(fr) - c
+				case 1:
+					c := 14
+					if c > len(fr)-1 {
+						c = len(fr) - 1
+					}
+					cut = 1 + r.Intn(c)
+				default:
+					cut = 1 + r.Intn(len(fr)-1)
+				}
+			}
+			sent := false
+			if cut > 0 {
+				sent = writeAll(fr[:cut])
+				time.Sleep(5 * time.Millisecond)
+				sent = sent && writeAll(fr[cut:])
+				run.Count("ws_frames_sent_in_two_pieces", 1)
+			} else {
+				sent = writeAll(fr)
+			}
+			if !sent {
 				failure = fmt.Sprintf("cannot send message #%d (%d bytes)", i, n)
 				return
 			}
@@ -834,7 +865,7 @@ func TestC20(t *testing.T) {
 		}()
 	}
 	wg.Wait()
-	code := run.Finish("the bundled HTTP server runs on a real stack whose link loops packets back to it (a harness link, so the TCP byte streams of both directions are reassembled from the tap), in virtual time. HTTP: GET/HEAD/POST/PUT to registered and unregistered paths with 0-8 PRNG headers (token: token) and 0-900-byte bodies from the accepted grammar, sent by the bundled client 10 ms after connecting; the handler's view (method, every sent header, body) and the client's result are compared with what was sent/produced, the status line is read off the wire, unregistered paths must not reach a handler. WebSocket: the bundled client (unmasked) and a harness client over a raw TCP endpoint with an independent RFC 6455 encoder/decoder (masked with zero, all-ones and PRNG keys) upgrade on /ws; the accept key must equal base64(SHA-1(key+GUID)); 1-6 messages per session with lengths from {0,1,2,124..128,1000,65534..65537,100000 (,300000)} and PRNG lengths, one at a time and in bursts, must be echoed byte for byte, in order, with the right frame-length encoding. distinct = exchange shapes Later additions: A route is registered while a WebSocket session is open; request bodies begin with / contain CR and LF. The late route is, half of the time, a path that was requested and refused before.",
+	code := run.Finish("the bundled HTTP server runs on a real stack whose link loops packets back to it (a harness link, so the TCP byte streams of both directions are reassembled from the tap), in virtual time. HTTP: GET/HEAD/POST/PUT to registered and unregistered paths with 0-8 PRNG headers (token: token) and 0-900-byte bodies from the accepted grammar, sent by the bundled client 10 ms after connecting; the handler's view (method, every sent header, body) and the client's result are compared with what was sent/produced, the status line is read off the wire, unregistered paths must not reach a handler. WebSocket: the bundled client (unmasked) and a harness client over a raw TCP endpoint with an independent RFC 6455 encoder/decoder (masked with zero, all-ones and PRNG keys) upgrade on /ws; the accept key must equal base64(SHA-1(key+GUID)); 1-6 messages per session with lengths from {0,1,2,124..128,1000,65534..65537,100000 (,300000)} and PRNG lengths, one at a time and in bursts, must be echoed byte for byte, in order, with the right frame-length encoding. distinct = exchange shapes Later additions: One frame in three of the raw client is written in two pieces 5 ms apart (cut 1-3 bytes before its end, inside or right behind its header, or anywhere), so that it reaches the server in separate TCP segments. A route is registered while a WebSocket session is open; request bodies begin with / contain CR and LF. The late route is, half of the time, a path that was requested and refused before.",
 		[]string{"requests and responses fit one TCP segment (the HTTP layer reads a message with a single receive)", "the 10 ms pause avoids the bundled server's late waiter registration, which is schedule-dependent and outside this property"})
 	os.Exit(code)
 }
